@@ -14,6 +14,7 @@ import ASV.Proofs.ModulesPartition
 import ASV.Proofs.ModulesChain
 import ASV.Proofs.ModulesLayoutIdx
 import ASV.Proofs.ModulesLayoutFacts
+import ASV.Proofs.ModulesLine
 namespace ASV.C14
 open ASV ASV.Modules ASV.Modules.T
 
@@ -206,6 +207,42 @@ theorem chain_total (genes : List Gene) (h : ∀ g ∈ genes, InputOK g.domains 
   obtain ⟨r0, hr0, rfl⟩ := List.mem_map.mp hrm
   exact hg r0 hr0 m (List.mem_filter.mp hm).1
 
+/-! ### the assembly line across genes (both strands)
+
+  `generate_domains` hands the two genes to `combine_modules` in *transcription* order: for a
+  reverse-strand gene the genome-right neighbour is the upstream one (`combine_modules(prev, info)`),
+  otherwise the genome-left one (`combine_modules(info, prev)`).  `Spec.assemblyLine` reads genes
+  given in genome order along the transcription direction (maximal runs of reverse-strand genes
+  right to left).  The theorems below say that this reading is invariant under the loop, i.e. a
+  merged module always joins the trailing (C-terminal) module of the UPSTREAM gene with the leading
+  (N-terminal) module of the downstream gene — dropping or inverting the strand test falsifies
+  them (see the negative `example`s at the end of this file). -/
+
+/-- 8a. before the final single-domain filter: reading all modules of all genes in assembly-line
+    order gives exactly the genes' non-docking domains in assembly-line order — nothing moved
+    across a gene border in the wrong direction, nothing lost, nothing duplicated -/
+theorem chain_keeps_assembly_line (genes : List Gene) (h : ∀ g ∈ genes, InputOK g.domains g.name) :
+    ∃ R, chainGo genes [] false = .ok R
+      ∧ Spec.assemblyLine (R.map entry) = Spec.geneLine genes
+      ∧ R.map hdr = (genes.filter Spec.liveGene).map ghdr := by
+  obtain ⟨R, hR, _, hh, hl, _⟩ := chain_line_spec genes h
+  exact ⟨R, hR, hl, hh⟩
+
+/-- 8b. what `generate_domains` reports (modules of more than one domain, per gene): one entry per
+    gene with domains or motifs, in genome order; read in assembly-line order the reported modules
+    are a sub-sequence of the assembly line; every reported module — in particular every
+    cross-gene module — is a contiguous block of the assembly line.  `Spec.chainLineOK` is the
+    definition the driver evaluates on the implementation's output. -/
+theorem chain_reports_assembly_line (genes : List Gene) (h : ∀ g ∈ genes, InputOK g.domains g.name) :
+    ∃ out, chain genes = .ok out
+      ∧ Spec.chainLineOK genes (out.map fun r => (r.name, r.modules.map (·.components))) = true := by
+  obtain ⟨R, hR, _, _, _, hok⟩ := chain_line_spec genes h
+  unfold chain
+  rw [hR]
+  refine ⟨_, rfl, ?_⟩
+  rw [List.map_map]
+  exact hok
+
 /-- the layout predicate read with indices: position `i` is checked against the components
     before it and after it -/
 theorem layout_by_index (cs : List Comp) : Spec.layout cs = Spec.layoutIdx cs :=
@@ -294,5 +331,44 @@ example : (match mergeModules headKS
                                    carrier := some (c "ACP" 0), end_ := some (c "Thioesterase" 10) } with
            | .ok (some m) => m.isComplete && m.isTransAt && m.isTerminated
            | _ => false) = true := by decide
+
+
+/-! ### non-vacuity for the assembly-line theorems: two adjacent reverse-strand genes,
+    genome-left `left = [ER, PP]`, genome-right (= upstream) `right = [KS, AT]` -/
+
+def cl (label : String) (start : Int) (locus : String) : Comp := ⟨label, [], start, start + 4, locus⟩
+def leftComps : List Comp := [cl "PKS_ER" 0 "left", cl "PP-binding" 5 "left"]
+def rightComps : List Comp := [cl "PKS_KS" 0 "right", cl "PKS_AT" 5 "right"]
+def modsOf (cs : List Comp) : List Module :=
+  match buildGo cs [] (Module.new true) with
+  | .ok (done, cur) => done ++ [cur]
+  | .error _ => []
+def combinedLabels (r : Except Err Combined) : List (List String) × List (List String) :=
+  match r with
+  | .ok c => (c.prev.map fun m => m.components.map (·.label), c.cur.map fun m => m.components.map (·.label))
+  | .error _ => ([], [])
+
+/-- the loop's call for a reverse-strand gene, `combine_modules(prev = left, info = right)`:
+    current = left, previous = right — the split module is merged into the upstream gene -/
+example : combinedLabels (combine (-1) (-1) (modsOf leftComps) (modsOf rightComps))
+    = ([["PKS_KS", "PKS_AT", "PKS_ER", "PP-binding"]], []) := by decide
+
+/-- the assembly line of the two genes reads right before left … -/
+example : Spec.assemblyLine [(true, leftComps), (true, rightComps)] = rightComps ++ leftComps := rfl
+
+/-- … the correct merge keeps it, and the merged module is a contiguous block of it -/
+example : (Spec.assemblyLine [(true, []), (true, rightComps ++ leftComps)]).isSublist
+            (Spec.assemblyLine [(true, leftComps), (true, rightComps)]) = true
+          ∧ Spec.isInfixB (rightComps ++ leftComps) (Spec.assemblyLine [(true, leftComps), (true, rightComps)]) = true := by
+  decide
+
+/-- negative: with the arguments the other way round (strand test dropped) and
+    `left = [KS, AT]`, `right = [PP]` the module `left ++ right` is "complete" but is not a block of
+    the assembly line `right ++ left`, and the reading is no longer a sub-sequence of it -/
+example : Spec.isInfixB ([cl "PKS_KS" 0 "left", cl "PKS_AT" 5 "left"] ++ [cl "PP-binding" 0 "right"])
+            (Spec.assemblyLine [(true, [cl "PKS_KS" 0 "left", cl "PKS_AT" 5 "left"]), (true, [cl "PP-binding" 0 "right"])]) = false
+          ∧ (Spec.assemblyLine [(true, [cl "PKS_KS" 0 "left", cl "PKS_AT" 5 "left"] ++ [cl "PP-binding" 0 "right"]), (true, [])]).isSublist
+            (Spec.assemblyLine [(true, [cl "PKS_KS" 0 "left", cl "PKS_AT" 5 "left"]), (true, [cl "PP-binding" 0 "right"])]) = false := by
+  decide
 
 end ASV.C14
